@@ -225,6 +225,312 @@ class RateTest(Harness):
         return label
 
 
+# ---------------------------------------------------------------------------------------------- rate loop: inductive steps at the SHIPPED parameters
+M_SHIP, C_SHIP, T_SHIP_MS = 38, 3, 1500
+RATE_FN = ('dheat', 'DHEat._dh_rate_test')
+
+
+def _rate_loops():
+    from vf import extract
+    main = extract.find_loop(*RATE_FN, lambda h, b: 'select.select' in b)
+    opn = extract.find_loop(*RATE_FN, lambda h, b: 'connect_ex' in b and 'select.select' not in b)
+    cleanup = extract.find_loop(*RATE_FN, lambda h, b: h == 'True' and '[*socket_dict][0]' in b)
+    return main, opn, cleanup
+
+
+def sock_pool(n):
+    """solver variables for n sockets: connect_ex outcome, readable / exceptional at the next select, what recv returns"""
+    return [{'code': zx.fresh_int('code%d' % i, 0, 3), 'kind': zx.fresh_int('kind%d' % i, 0, 3), 'ready': zx.fresh_bool('ready%d' % i), 'exc': zx.fresh_bool('exc%d' % i)}
+            for i in range(n)]
+
+
+def _cz(v):
+    return v if isinstance(v, int) else cur().concretize(v.e)
+
+
+class SSock(RSock):
+    """rate-test socket whose behaviour comes from the harness's variable pool (by creation index)"""
+
+    def __init__(self, world, family=2, stype=1):
+        super().__init__(world, family, stype)
+        v = world.pool[self.idx]
+        self.code, self.kind, self.ready, self.exc = v['code'], v['kind'], v['ready'], v['exc']
+
+    def connect_ex(self, addr):
+        self.w.dialled.append(addr)
+        return [0, errno.EINPROGRESS, errno.EWOULDBLOCK, errno.ECONNREFUSED][_cz(self.code)]
+
+
+class StepWorld:
+    """environment of one loop iteration"""
+    AF_INET, AF_INET6, SOCK_STREAM, SHUT_RDWR = 2, 10, 1, 2
+
+    def __init__(self, pool):
+        self.pool = pool
+        self.socks, self.dialled = [], []
+        self.open_now = self.max_open = 0
+        self.clock = Clock([])
+        self.selects = 0
+
+    def reply_kind(self, idx):
+        return _cz(self.socks[idx].kind)
+
+    def socket(self, fam, stype):
+        return SSock(self, fam, stype)
+
+    def select(self, r, w, x, timeout):
+        self.selects += 1
+        ready = [s_ for s_ in list(r) if bool(s_.ready)]
+        exc = [s_ for s_ in list(x) if bool(s_.exc)]
+        if not ready and not exc:
+            self.clock.pending += int(timeout * 1000)     # contract: a select() that reports nothing blocked for the whole timeout
+        return ready, [], exc
+
+    def mods(self):
+        w = self
+
+        class TimeMod:
+            time = w.clock.time
+            sleep = w.clock.sleep
+
+        class SelectMod:
+            select = w.select
+
+        class SockMod:
+            AF_INET, AF_INET6, SOCK_STREAM, SHUT_RDWR = 2, 10, 1, 2
+            socket = w.socket
+        return {'time': TimeMod, 'select': SelectMod, 'socket': SockMod}
+
+
+class RateOpenStep(Harness):
+    """inductive step of the socket-opening loop of the real _dh_rate_test (loop body and loop condition extracted from the current source) at the shipped
+    limits (38 connections, 3 sockets): from ANY state, if the condition holds, one iteration makes exactly one attempt to the target, attempts stay <= 38,
+    tracked sockets stay <= 3, a socket is tracked iff its connect was accepted, and nothing else changes."""
+    prop, ob = PROP, 'O5'
+    width = 64
+
+    def __init__(self, n):
+        self.n = n
+        self.name = 'rateopenstep-n%d' % n
+
+    def params(self):
+        return {'n': self.n}
+
+    def inputs(self):
+        return {'A': zx.fresh_int('A', 0, 45), 'O': zx.fresh_int('O', 0, 45), 'pool': sock_pool(self.n + 1), 'now': zx.fresh_int('now', 0, 10 ** 6)}
+
+    def run(self, M, inp):
+        from vf import extract
+        _, opn, _ = _rate_loops()
+        names = ['out', 'aconf', 'socket_dict', 'concurrent_sockets', 'num_opened_connections', 'max_connections', 'num_attempted_connections', 'now',
+                 'target_address_family', 'target_ip_address']
+        test = extract.loop_test(M, *RATE_FN, opn, names)
+        body = extract.loop_body(M, *RATE_FN, opn, names, ['num_attempted_connections', 'num_opened_connections', 'socket_dict', 'max_connections', 'concurrent_sockets'])
+        w = StepWorld(inp['pool'])
+        now = STime(inp['now'])
+        pre = [SSock(w) for _ in range(self.n)]
+        d = {s_: now for s_ in pre}
+        args = dict(out=M.outputbuffer.OutputBuffer(), aconf=M.auditconf.AuditConf('target', 22), socket_dict=d, concurrent_sockets=C_SHIP, num_opened_connections=inp['O'],
+                    max_connections=M_SHIP, num_attempted_connections=inp['A'], now=now, target_address_family=2, target_ip_address='192.0.2.1')
+        with AE.patched(M.dheat, **w.mods()):
+            g = guarded(test, **args)
+            if isinstance(g, Exc):
+                return {'exc': g}
+            if not bool(g):
+                return {'guard': False}
+            r = guarded(body, **args)
+        if isinstance(r, Exc):
+            return {'exc': r}
+        nd = r['socket_dict']
+        new = [s_ for s_ in w.socks if s_ not in pre]
+        return {'guard': True, 'A2': r['num_attempted_connections'], 'O2': r['num_opened_connections'], 'n2': len(nd), 'pre_kept': all(s_ in nd and nd[s_] is now for s_ in pre),
+                'created': len(new), 'tracked_new': [s_ in nd and nd[s_] is now for s_ in new], 'dialled': list(w.dialled), 'limits': (r['max_connections'], r['concurrent_sockets'])}
+
+    def check(self, inp, obs):
+        if 'exc' in obs:
+            yield 'no-exception', False
+            return
+        A, O, n = inp['A'], inp['O'], self.n
+        if not obs['guard']:
+            # the loop is left only when there is no room: this is what bounds the summary used by the outer step
+            yield 'loop-left-only-without-room', s_or(n >= C_SHIP, n + O >= M_SHIP, A >= M_SHIP)
+            return
+        yield 'entered-only-with-room', s_and(n < C_SHIP, A < M_SHIP)
+        yield 'exactly-one-attempt', s_and(obs['A2'] == A + 1, obs['created'] == 1, obs['dialled'] == [('192.0.2.1', 22)])
+        yield 'attempts<=38', obs['A2'] <= M_SHIP
+        accepted = inp['pool'][self.n]['code'] != 3
+        yield 'tracked-iff-accepted', s_and(s_implies(accepted, s_and(obs['n2'] == n + 1, obs['tracked_new'] == [True])), s_implies(s_not(accepted), s_and(obs['n2'] == n, obs['tracked_new'] == [False])))
+        yield 'tracked<=3', obs['n2'] <= C_SHIP
+        yield 'nothing-else-changes', s_and(obs['O2'] == O, obs['pre_kept'], obs['limits'] == (M_SHIP, C_SHIP))
+
+
+class RateStep(Harness):
+    """inductive step of the MAIN loop of the real _dh_rate_test at the shipped limits (1.5 s, 38, 3), its socket-opening loop replaced by the summary that
+    RateOpenStep justifies: from ANY state satisfying the invariant (attempts <= 38, tracked <= 3, opened + tracked <= attempts, open sockets == tracked
+    sockets) under any clock reading, any readiness pattern and any replies, one iteration re-establishes the invariant, never holds more than 3 sockets
+    open, ends the loop exactly when time is up or 38 connections were opened, and otherwise makes progress in the well-founded order
+    (38 - attempts, tracked, time left in 100 ms steps)."""
+    prop, ob = PROP, 'O5'
+    width = 64
+
+    def __init__(self, n, k):
+        # n sockets tracked on entry, k sockets accepted by the opening loop in this iteration (tracked-after-timeouts + k <= 3 is assumed inside the
+        # summary): the case split over k in 0..3 is done by the task list
+        self.n, self.k = n, k
+        self.name = 'ratestep-n%d-k%d' % (n, k)
+        self.deadline_s = 1500
+
+    def params(self):
+        return {'n': self.n, 'k': self.k}
+
+    def inputs(self):
+        inp = {'A': zx.fresh_int('A', 0, M_SHIP), 'O': zx.fresh_int('O', 0, M_SHIP), 'E': zx.fresh_int('E', 0, 1000), 'pool': sock_pool(self.n + self.k),
+               'S': zx.fresh_int('S', 0, 10 ** 6), 'e0': zx.fresh_int('e0', 0, 2000), 'delta': zx.fresh_int('delta', 0, 500),
+               'age': [zx.fresh_int('age%d' % i, 0, 40000) for i in range(self.n)], 'A_new': zx.fresh_int('A_new', 0, M_SHIP)}
+        if zx.active():
+            zx.cur().assume(inp['O'] + self.n <= inp['A'])          # invariant: every opened or tracked connection was an attempt
+        return inp
+
+    def run(self, M, inp):
+        from vf import extract
+        main, opn, _ = _rate_loops()
+        w = StepWorld(inp['pool'])
+        T0 = inp['S'] + inp['e0']
+        w.clock.now = T0
+        w.clock.deltas = [inp['delta']]
+        start = STime(inp['S'])
+        pre = [SSock(w) for _ in range(self.n)]
+        d = {}
+        for s_, age in zip(pre, inp['age']):
+            d[s_] = STime(T0 - age)
+        close = extract.nested_def(M, *RATE_FN, '_close_socket')
+        summary_log = {}
+
+        def open_summary(A, O, socket_dict, now, max_connections, concurrent_sockets):
+            # any result of the opening loop allowed by RateOpenStep: k sockets accepted and tracked (stamped `now`), A2 - A >= k attempts, and the loop condition is false
+            n0 = len(socket_dict)
+            k = self.k
+            A2 = inp['A_new']
+            ok = s_and(n0 + k <= concurrent_sockets, A + k <= A2, A2 <= max_connections,
+                       s_not(s_and(n0 + k < concurrent_sockets, n0 + k + O < max_connections, A2 < max_connections)),
+                       s_implies(s_not(s_and(n0 < concurrent_sockets, n0 + O < max_connections, A < max_connections)), s_and(k == 0, A2 == A)))
+            if zx.active():
+                zx.cur().assume(ok)
+            elif not ok:
+                raise zx.PathInfeasible()
+            for _ in range(k):
+                socket_dict[SSock(w)] = now
+            summary_log['k'] = k
+            summary_log['open_after'] = w.open_now
+            return A2
+        names = ['out', 'aconf', 'max_time', 'max_connections', 'concurrent_sockets', 'interactive', 'multiline_output', 'spinner', 'spinner_index',
+                 'num_attempted_connections', 'num_opened_connections', 'num_exceeded_maxstartups', 'socket_dict', 'start_timer', 'now', 'last_update',
+                 'target_address_family', 'target_ip_address', '_close_socket', '_open_summary_']
+        body = extract.loop_body(M, *RATE_FN, main, names, ['num_attempted_connections', 'num_opened_connections', 'num_exceeded_maxstartups', 'socket_dict', 'now'],
+                                 break_flag='__broke__', replace={opn: ('_open_summary_', ['num_attempted_connections', 'num_opened_connections', 'socket_dict', 'now', 'max_connections',
+                                                                                         'concurrent_sockets'], ['num_attempted_connections'])})
+        args = dict(out=M.outputbuffer.OutputBuffer(), aconf=M.auditconf.AuditConf('target', 22), max_time=1.5, max_connections=M_SHIP, concurrent_sockets=C_SHIP, interactive=False,
+                    multiline_output=False, spinner=['-'], spinner_index=0, num_attempted_connections=inp['A'], num_opened_connections=inp['O'],
+                    num_exceeded_maxstartups=inp['E'], socket_dict=d, start_timer=start, now=STime(T0), last_update=start, target_address_family=2,
+                    target_ip_address='192.0.2.1', _close_socket=close, _open_summary_=open_summary)
+        with AE.patched(M.dheat, **w.mods()):
+            r = guarded(body, **args)
+        if isinstance(r, Exc):
+            return {'exc': r}
+        nd = r['socket_dict']
+        T1 = w.clock.now + w.clock.pending
+        return {'broke': r['__broke__'], 'A2': r['num_attempted_connections'], 'O2': r['num_opened_connections'], 'E2': r['num_exceeded_maxstartups'], 'n2': len(nd),
+                'open_now': w.open_now, 'max_open': w.max_open, 'tracked_all_open': all(not s_.closed for s_ in nd), 'untracked_all_closed': all(s_.closed for s_ in w.socks if s_ not in nd),
+                'now_ms': r['now'].ms, 'T1': T1, 'summary_ran': 'k' in summary_log}
+
+    def check(self, inp, obs):
+        if 'exc' in obs:
+            yield 'no-exception', False
+            return
+        A, O, n = inp['A'], inp['O'], self.n
+        T0 = inp['S'] + inp['e0']
+        elapsed = obs['now_ms'] - inp['S']
+        yield 'clock-read-once-per-iteration', obs['now_ms'] == T0 + inp['delta']
+        time_up = elapsed >= T_SHIP_MS
+        yield 'loop-ends-exactly-when-time-is-up-or-38-opened', obs['broke'] == s_or(time_up, O >= M_SHIP) if not isinstance(obs['broke'], bool) else s_and(s_implies(obs['broke'], s_or(time_up, O >= M_SHIP)), s_implies(s_not(obs['broke']), s_not(s_or(time_up, O >= M_SHIP))))
+        if obs['broke']:
+            yield 'leaving-the-loop-changes-nothing', s_and(obs['A2'] == A, obs['O2'] == O, obs['n2'] == n, obs['open_now'] == n)
+            return
+        yield 'attempts<=38', s_and(obs['A2'] >= A, obs['A2'] <= M_SHIP)
+        yield 'tracked<=3-and-never-more-than-3-open', s_and(obs['n2'] <= C_SHIP, obs['max_open'] <= C_SHIP)
+        yield 'open-sockets==tracked-sockets', s_and(obs['open_now'] == obs['n2'], obs['tracked_all_open'], obs['untracked_all_closed'])
+        yield 'opened+tracked<=attempts', s_and(obs['O2'] >= O, obs['O2'] + obs['n2'] <= obs['A2'])
+        yield 'opening-loop-reached', obs['summary_ran']
+        # well-founded progress: (38 - attempts, tracked, time left) decreases lexicographically; the time component by >= 100 ms
+        yield 'progress', s_or(obs['A2'] > A, s_and(obs['A2'] == A, obs['n2'] < n), s_and(obs['A2'] == A, obs['n2'] == n, obs['T1'] - T0 >= 100))
+
+
+class RateCleanupStep(Harness):
+    """the closing loop after the main loop: one iteration from any tracked set of n open sockets ends the loop iff none is left, else closes and untracks one."""
+    prop, ob = PROP, 'O5'
+    width = 64
+
+    def __init__(self, n):
+        self.n = n
+        self.name = 'ratecleanupstep-n%d' % n
+
+    def params(self):
+        return {'n': self.n}
+
+    def inputs(self):
+        return {'pool': sock_pool(max(1, self.n))}
+
+    def run(self, M, inp):
+        from vf import extract
+        _, _, cl = _rate_loops()
+        w = StepWorld(inp['pool'])
+        pre = [SSock(w) for _ in range(self.n)]
+        d = {s_: STime(0) for s_ in pre}
+        close = extract.nested_def(M, *RATE_FN, '_close_socket')
+        body = extract.loop_body(M, *RATE_FN, cl, ['socket_dict', '_close_socket'], ['socket_dict'], break_flag='__broke__')
+        with AE.patched(M.dheat, **w.mods()):
+            r = guarded(body, socket_dict=d, _close_socket=close)
+        if isinstance(r, Exc):
+            return {'exc': r}
+        return {'broke': r['__broke__'], 'n2': len(r['socket_dict']), 'open_now': w.open_now, 'untracked_closed': all(s_.closed for s_ in pre if s_ not in r['socket_dict'])}
+
+    def check(self, inp, obs):
+        if 'exc' in obs:
+            yield 'no-exception', False
+            return
+        yield 'ends-iff-nothing-tracked', obs['broke'] == (self.n == 0)
+        if not obs['broke']:
+            yield 'closes-and-untracks-one', obs['n2'] == self.n - 1 and obs['open_now'] == self.n - 1 and obs['untracked_closed']
+
+
+def rate_init_glue():
+    """glue (syntactic, current source): before the main loop the three counters are 0 and the tracked set is empty (the invariant's base case); after it the
+    closing loop follows directly; audit() passes the limits (1.5, 38, 3) (checked semantically by Orchestration)."""
+    import ast, os, time
+    from vf import harness as H, extract
+    t0 = time.time()
+    res = {'harness': 'C19/O5:rate-loop-base-case-and-exit-glue', 'ob': 'C19/O5', 'params': {}, 'status': 'ok', 'violations': [], 'paths': 1, 'decisions': 1, 'queries': 0,
+           'solver_time_s': 0.0, 'xval': 0, 'replayed': 0, 'asserts': 1, 'sample': None, 'error': None, 'note': 'syntactic glue check'}
+    try:
+        path, fn, loops = extract._loops(*RATE_FN)
+        main, opn, cl = _rate_loops()
+        lp = loops[main]
+        idx = fn.body.index(lp)
+        before = [ast.unparse(x) for x in fn.body[:idx]]
+        want = ['num_attempted_connections = 0', 'num_opened_connections = 0', 'socket_dict: Dict[socket.socket, float] = {}']
+        missing = [x for x in want if x not in before]
+        after_ok = fn.body[idx + 1] is loops[cl]
+        if missing or not after_ok or ast.unparse(lp.test) != 'True':
+            res['status'] = 'inconclusive'
+            res['error'] = 'pattern drift: base case / exit shape of the rate loop changed (missing %r, cleanup follows: %r)' % (missing, after_ok)
+        res['sample'] = {'inputs': {'function': 'DHEat._dh_rate_test'}, 'observation': {'before_loop': [x for x in before if x in want], 'cleanup_follows': after_ok}}
+    except Exception as e:      # noqa
+        res['status'] = 'inconclusive'
+        res['error'] = 'pattern drift: %s' % e
+    res['wall_s'] = round(time.time() - t0, 3)
+    return res
+
+
 # ---------------------------------------------------------------------------------------------- probe phases
 class PSock:
     """SSH_Socket stand-in for the probe drivers: connect/get_banner/read_packet outcomes come from the harness"""
@@ -538,6 +844,15 @@ def tasks(tier):
                 T.append(Orchestration(skip, client, policy))
     for ssh1, ssh2 in ((True, True), (True, False), (False, True)):
         T.append(Fallback(ssh1, ssh2, 3 if q else 5))
+    for n in range(C_SHIP + 1):
+        T.append(RateOpenStep(n))
+        T.append(RateCleanupStep(n))
+    for n in range(C_SHIP + 1):
+        for k in range(C_SHIP + 1):
+            if q and n + k > 2:
+                continue        # three live sockets in one iteration: thorough tier
+            T.append(RateStep(n, k))
+    T.append(rate_init_glue)
     return T
 
 
@@ -550,6 +865,12 @@ def harness_by_name(name, params):
         return HostKeyPhase(p['keytypes'])
     if k == 'gexphase':
         return GexPhase(p['algs'], p['openssh'])
+    if k == 'rateopenstep':
+        return RateOpenStep(p['n'])
+    if k == 'ratestep':
+        return RateStep(p['n'], p['k'])
+    if k == 'ratecleanupstep':
+        return RateCleanupStep(p['n'])
     if k == 'fallback':
         return Fallback(p['ssh1'], p['ssh2'], p['n'])
     if k == 'orchestration':
@@ -564,9 +885,11 @@ META = {
                         'phase with every connect/banner/KEXINIT/reply outcome vector for 4 host-key sets; GEX phase with every outcome vector over 4 outcome slots and a symbolic '
                         'have-set; orchestration for skip x role x policy',
                'thorough': 'more parameter pairs and rounds'},
-    'outside': ['the shipped parameters (1.5 s, 38, 3) themselves are only checked to be the ones passed (O3); the loop is explored for small parameter values', 'OS-level socket state after close()',
-                'immediate connect_ex errors other than 0/EINPROGRESS/EWOULDBLOCK (not a server behaviour on a non-blocking socket)'],
+    'outside': ['O4 explores whole runs of the loop for small parameter values only; the shipped parameters are covered by the inductive steps of O5, whose composition (invariant + well-founded '
+                'order => at most 38 attempts, at most 3 open, all closed, termination) is a paper argument stated in DESIGN.md, and whose base case / exit shape is a syntactic check', 'OS-level socket state after close()',
+                'sockets whose non-blocking connect fails immediately are dropped without an explicit close (CPython closes them when the name is rebound)'],
     'stubs': ['time.time/sleep: symbolic clock', 'select.select: arbitrary subsets (empty result = blocked for the timeout)', 'socket.socket/connect_ex/recv: RSock world',
               'probe sockets: PSock (outcomes symbolic)', 'key-exchange groups: stub classes driven by the harness'],
-    'assumptions': [],
+    'assumptions': ['O5: the summary of the opening loop used in the main-loop step is the strongest post-condition that RateOpenStep justifies (k accepted sockets stamped now, '
+                    'attempts grow by >= k and stay <= 38, loop condition false on exit)'],
 }
